@@ -394,7 +394,13 @@ func SetTypeConverter(typ reflect.Type, conv TypeConverter) {
 // The caller must hold the goTypeMutex lock.
 func getTypeConverter(typ reflect.Type) (TypeConverter, error) {
 	kind := typ.Kind()
+	// Defined types, e.g. time.Duration or `type Tags []string`, use the
+	// converter for their kind plus a conversion to and from the defined type.
+	isDefined := typ.PkgPath() != ""
 	if conv, ok := kindConverters[kind]; ok {
+		if isDefined {
+			return &namedTypeConverter{typ: typ, basic: basicTypes[kind], conv: conv}, nil
+		}
 		return conv, nil
 	}
 	if conv, ok := typeConverters[typ]; ok {
@@ -451,7 +457,45 @@ func getTypeConverter(typ reflect.Type) (TypeConverter, error) {
 	default:
 		return nil, errz.TypeErrorf("type error: unsupported kind: %s", kind)
 	}
+	if isDefined && (kind == reflect.Slice || kind == reflect.Array || kind == reflect.Map) {
+		converter = &namedTypeConverter{typ: typ, conv: converter}
+	}
 	return converter, nil
+}
+
+// basicTypes maps the kinds in kindConverters to their predeclared Go type.
+var basicTypes = map[reflect.Kind]reflect.Type{}
+
+func init() {
+	for _, v := range []interface{}{
+		false, int(0), int8(0), int16(0), int32(0), int64(0), uint(0), uint8(0),
+		uint16(0), uint32(0), uint64(0), float32(0), float64(0), "",
+	} {
+		basicTypes[reflect.TypeOf(v).Kind()] = reflect.TypeOf(v)
+	}
+}
+
+// namedTypeConverter adapts the converter for a kind, which works with the
+// predeclared or unnamed Go type, to a defined type of that kind.
+type namedTypeConverter struct {
+	typ   reflect.Type // the defined type
+	basic reflect.Type // type expected by conv.From, if it is not generic
+	conv  TypeConverter
+}
+
+func (c *namedTypeConverter) To(obj Object) (interface{}, error) {
+	v, err := c.conv.To(obj)
+	if err != nil || v == nil {
+		return nil, err
+	}
+	return reflect.ValueOf(v).Convert(c.typ).Interface(), nil
+}
+
+func (c *namedTypeConverter) From(obj interface{}) (Object, error) {
+	if c.basic != nil {
+		obj = reflect.ValueOf(obj).Convert(c.basic).Interface()
+	}
+	return c.conv.From(obj)
 }
 
 // BoolConverter converts between bool and *Bool.
